@@ -15,7 +15,7 @@ Section SpecInd.
   Variable P : spec -> Prop.
   Hypothesis HLeaf : forall s, is_leaf s = true -> P s.
   Hypothesis HTuple : forall ss, Forall P ss -> P (STuple ss).
-  Hypothesis HTemplate : forall fs skip, Forall (fun f => P (snd f)) fs -> P (STemplate fs skip).
+  Hypothesis HTemplate : forall fs skip rc, Forall (fun f => P (snd f)) fs -> P (STemplate fs skip rc).
   Hypothesis HColl : forall k s, P s -> P (SCollection k s).
   Hypothesis HOpt : forall s, P s -> P (SOptPrefixed s).
   Hypothesis HAdapter : forall a s, P s -> P (SAdapter a s).
@@ -24,6 +24,7 @@ Section SpecInd.
   Hypothesis HLenSwitch : forall cs, Forall (fun c => P (snd c)) cs -> P (SLengthSwitch cs).
   Hypothesis HEnumSwitch : forall tbl strict ip cs,
       Forall (fun c => P (snd c)) cs -> P (SEnumSwitch tbl strict ip cs).
+  Hypothesis HOptFlagged : forall f ftbl mask s, P s -> P (SOptFlagged f ftbl mask s).
 
   Fixpoint spec_ind' (s : spec) : P s :=
     match s with
@@ -43,8 +44,8 @@ Section SpecInd.
                     | [] => Forall_nil P
                     | x :: r => Forall_cons x (spec_ind' x) (go r)
                     end) ss)
-    | STemplate fs skip =>
-      HTemplate fs skip
+    | STemplate fs skip rc =>
+      HTemplate fs skip rc
                 ((fix go (l : list (N * spec)) : Forall (fun f => P (snd f)) l :=
                     match l with
                     | [] => Forall_nil _
@@ -69,5 +70,6 @@ Section SpecInd.
                       | [] => Forall_nil _
                       | x :: r => Forall_cons x (spec_ind' (snd x)) (go r)
                       end) cs)
+    | SOptFlagged f ftbl mask s' => HOptFlagged f ftbl mask s' (spec_ind' s')
     end.
 End SpecInd.
